@@ -13,7 +13,11 @@ import (
 // in which a section starts carries payload_unit_start_indicator and a pointer_field giving the
 // offset of the first section start; the bytes in front of it are the END of the previous section.
 // straddles[i] tells that section i has bytes in a PUSI packet other than the one it starts in.
-func packContinuous(pid uint16, secs [][]byte, cc *uint8) (pkts []*ref.Pkt, straddles, cutUnit []bool) {
+//
+// short (optional) gives, per packet index, a number of payload bytes the packet leaves unused: an adaptation
+// field takes their place (1 = the one-byte field, 2 = flags only, 3 and more = stuffing bytes) - stuffing
+// may stand in any packet, also between the packets of a section.
+func packContinuous(pid uint16, secs [][]byte, cc *uint8, short ...func(k int) int) (pkts []*ref.Pkt, straddles, cutUnit []bool) {
 	var data []byte
 	var starts, ends []int
 	for _, s := range secs {
@@ -28,25 +32,31 @@ func packContinuous(pid uint16, secs [][]byte, cc *uint8) (pkts []*ref.Pkt, stra
 	var spans []span
 	pos := 0
 	for pos < len(data) {
+		room := 184
+		if len(short) > 0 {
+			if sh := short[0](len(pkts)); sh > 0 && sh < 180 {
+				room -= sh
+			}
+		}
 		first := -1
 		for _, st := range starts {
-			if st >= pos && st < pos+183 {
+			if st >= pos && st < pos+room-1 {
 				first = st
 				break
 			}
 		}
 		p := &ref.Pkt{PID: pid, HasPL: true, CC: *cc}
 		*cc = (*cc + 1) & 0xf
-		n := 184
+		n := room
 		if first >= 0 {
 			p.PUSI = true
 			p.Payload = append(p.Payload, byte(first-pos))
-			n = 183
+			n = room - 1
 		} else {
-			// a section starting exactly at the 184th byte must wait for the next packet
+			// a section starting exactly at the last byte must wait for the next packet
 			for _, st := range starts {
-				if st == pos+183 {
-					n = 183
+				if st == pos+room-1 {
+					n = room - 1
 				}
 			}
 		}
@@ -146,61 +156,81 @@ func c02Continuous(c *mc.Ctx) {
 				secs = append(secs, s)
 				exps = append(exps, e)
 			}
-			cc := uint8(i)
-			pkts, straddles, cutUnit := packContinuous(k.pid, secs, &cc)
-			b := EncodePkts(pkts)
-			out := DemuxBytes(b)
-			cases++
-			det := func(msg string) map[string]any {
-				return map[string]any{"kind": "stream", "scenario": "continuous-sections:" + k.name, "section_sizes": fmt.Sprint(dg), "bytes": mc.Hex(b), "message": msg}
-			}
-			if out.Panic != nil || !out.EOF {
-				c.Rep.Report("continuous-sections-run-failed", det(fmt.Sprintf("panic=%v eof=%v", out.Panic, out.EOF)))
-				continue
-			}
-			var got []*astits.DemuxerData
-			for _, d := range out.Data {
-				if d.PID == k.pid {
-					got = append(got, d)
+			// packetisations: every packet full, and packet j (of the first six) leaving 1, 2, 3 or 50 payload bytes to an
+			// adaptation field
+			for variant := 0; variant <= 24; variant++ {
+				cc := uint8(i)
+				var short []func(int) int
+				if variant > 0 {
+					vj, vs := (variant-1)/4, []int{1, 2, 3, 50}[(variant-1)%4]
+					short = append(short, func(k int) int {
+						if k == vj {
+							return vs
+						}
+						return 0
+					})
 				}
-			}
-			j := 0
-			anyStraddle := false
-			for idx, e := range exps {
-				if j < len(got) {
-					if ok, _ := e.Matches(got[j]); ok {
-						j++
-						continue
+				pkts, straddles, cutUnit := packContinuous(k.pid, secs, &cc, short...)
+				if variant > 0 && (variant-1)/4 >= len(pkts)-1 {
+					continue // no such packet in front of the last one
+				}
+				if variant > 0 {
+					c.Ev.Class("continuous-sections-with-stuffed-packet", 1)
+				}
+				b := EncodePkts(pkts)
+				out := DemuxBytes(b)
+				cases++
+				det := func(msg string) map[string]any {
+					return map[string]any{"kind": "stream", "scenario": "continuous-sections:" + k.name, "section_sizes": fmt.Sprint(dg), "variant": variant, "bytes": mc.Hex(b), "message": msg}
+				}
+				if out.Panic != nil || !out.EOF {
+					c.Rep.Report("continuous-sections-run-failed", det(fmt.Sprintf("panic=%v eof=%v", out.Panic, out.EOF)))
+					continue
+				}
+				var got []*astits.DemuxerData
+				for _, d := range out.Data {
+					if d.PID == k.pid {
+						got = append(got, d)
 					}
 				}
-				if straddles[idx] {
-					anyStraddle = true
-					c.Rep.Report("section-ending-in-pointer-area-lost", det(fmt.Sprintf("section %d (%d bytes) ends in front of the pointer_field target of a later packet and is not delivered", idx, len(secs[idx]))))
-				} else if cutUnit[idx] {
-					anyStraddle = true
-					c.Rep.Report("section-sharing-a-unit-with-a-cut-section-lost", det(fmt.Sprintf("section %d (%d bytes) is complete, but a later section that starts in the same payload_unit_start span ends in front of the next pointer_field target: the whole span is dropped", idx, len(secs[idx]))))
-				} else {
-					c.Rep.Report("section-lost:continuous-packing:"+k.name, det(fmt.Sprintf("section %d (%d bytes, wholly inside the packets from its own start to the next unit start) is not delivered", idx, len(secs[idx]))))
+				j := 0
+				anyStraddle := false
+				for idx, e := range exps {
+					if j < len(got) {
+						if ok, _ := e.Matches(got[j]); ok {
+							j++
+							continue
+						}
+					}
+					if straddles[idx] {
+						anyStraddle = true
+						c.Rep.Report("section-ending-in-pointer-area-lost", det(fmt.Sprintf("section %d (%d bytes) ends in front of the pointer_field target of a later packet and is not delivered", idx, len(secs[idx]))))
+					} else if cutUnit[idx] {
+						anyStraddle = true
+						c.Rep.Report("section-sharing-a-unit-with-a-cut-section-lost", det(fmt.Sprintf("section %d (%d bytes) is complete, but a later section that starts in the same payload_unit_start span ends in front of the next pointer_field target: the whole span is dropped", idx, len(secs[idx]))))
+					} else {
+						c.Rep.Report("section-lost:continuous-packing:"+k.name, det(fmt.Sprintf("section %d (%d bytes, wholly inside the packets from its own start to the next unit start) is not delivered", idx, len(secs[idx]))))
+					}
 				}
+				if j < len(got) {
+					c.Rep.Report("foreign-data:continuous-packing", det(fmt.Sprintf("%d data delivered that match no section in order", len(got)-j)))
+				}
+				if len(out.Errs) > 0 && !anyStraddle {
+					c.Rep.Report("error-on-wellformed-stream", det(fmt.Sprintf("NextData returned an error: %v", out.Errs[0])))
+				}
+				straddle := false
+				for _, s := range straddles {
+					straddle = straddle || s
+				}
+				if !straddle {
+					c.Ev.Class("continuous-sections-without-straddle", 1)
+				} else {
+					c.Ev.Class("section-straddles-unit-start", 1)
+				}
+				c.Ev.Distinct(fmt.Sprintf("continuous|%s|%v|%d", k.name, dg, variant))
 			}
-			if j < len(got) {
-				c.Rep.Report("foreign-data:continuous-packing", det(fmt.Sprintf("%d data delivered that match no section in order", len(got)-j)))
-			}
-			if len(out.Errs) > 0 && !anyStraddle {
-				c.Rep.Report("error-on-wellformed-stream", det(fmt.Sprintf("NextData returned an error: %v", out.Errs[0])))
-			}
-			straddle := false
-			for _, s := range straddles {
-				straddle = straddle || s
-			}
-			if !straddle {
-				c.Ev.Class("continuous-sections-without-straddle", 1)
-			} else {
-				c.Ev.Class("section-straddles-unit-start", 1)
-			}
-			c.Ev.Distinct(fmt.Sprintf("continuous|%s|%v", k.name, dg))
 		}
 	}
 	c.Ev.AddScenario(mc.Scenario{Name: "continuous-sections", SpaceSize: cases, Executed: cases, Exhaustive: true,
-		Bound: "PAT / SDT / EIT PIDs x every sequence of 4 sections over 4 size classes (16..492 bytes), packed back to back (a section may end in front of the pointer_field target of the packet in which the next one starts)"})
+		Bound: "PAT / SDT / EIT PIDs x every sequence of 4 sections over 4 size classes (16..492 bytes), packed back to back (a section may end in front of the pointer_field target of the packet in which the next one starts) x {every packet full, packet j<6 leaving 1/2/3/50 bytes to an adaptation field}"})
 }
